@@ -18,12 +18,14 @@ RULE = (
     "exit callable, pushed sync exit callable, pushed async / sync CM object, async callback with args, sync callback with "
     "args} x behaviour {falsy, truthy, raise new, raise new only while handling, re-raise the received "
     "exception, raise a new BaseException that is not an Exception, raise a new exception that already has a "
-    "context chain, enter fails (CMs)} x block outcome {normal, raises}; the space for <= 2 entries is enumerated "
+    "context chain, raise StopIteration / StopAsyncIteration, enter fails (CMs)} x block outcome {normal, raises}; the space for <= 2 entries is enumerated "
     "completely (every tier), 3-4 entries are sampled by Hypothesis. Reference: the same entries written as "
-    "genuinely nested async-with / with statements (callables and callbacks wrapped in a trivial manager). "
+    "genuinely nested async-with / with statements in ONE coroutine frame (generated source; callables and "
+    "callbacks wrapped in a trivial manager, synchronous ones in a synchronous manager). "
     "Compared: the ordered log of (entry, which exception object it received), enters, callback arguments, and "
     "the final outcome (which object propagates, or suppression). Histories: up to 20 operations from "
-    "{register an entry, aclose, pop_all (then continue on either stack), leave the block with/without an "
+    "{register an entry, register an exit that registers a late-comer / that calls pop_all() while the stack "
+    "unwinds, aclose, pop_all (then continue on either stack), leave the block with/without an "
     "exception, unwind again}; model = list of pending exits per stack object; at the end every stack is "
     "closed and every successfully registered exit must have run exactly once overall, never on a stack that "
     "gave it away, never for a failed enter. A watchdog turns non-termination into a violation. "
@@ -35,7 +37,8 @@ ASSUMPTIONS = [
 ]
 
 KINDS = ["acm", "scm", "push-async", "push-sync", "push-cm", "push-scm", "callback-async", "callback-sync"]
-BEHAVIOURS = ["falsy", "truthy", "raise", "raise-if-exc", "reraise", "raise-base", "raise-chained", "grumpy-result", "raise-block"]
+BEHAVIOURS = ["falsy", "truthy", "raise", "raise-if-exc", "reraise", "raise-base", "raise-chained", "grumpy-result", "raise-block",
+              "raise-stop", "raise-stop-async"]
 
 
 class New(Exception):
@@ -67,6 +70,8 @@ def role(exc, block_exc):
         return "block"
     if isinstance(exc, (New, NewBase)):
         return ("new", exc.args[0])
+    if isinstance(exc, (StopIteration, StopAsyncIteration)) and exc.args and isinstance(exc.args[0], tuple):
+        return (type(exc).__name__,) + exc.args[0]
     return ("other", type(exc).__name__)
 
 
@@ -93,6 +98,12 @@ def behave(i, behaviour, received):
         return GrumpyResult(i) if received is not None else False
     if behaviour == "raise-base":
         raise NewBase(i)
+    if behaviour == "raise-stop":
+        # the protocol exceptions are ordinary exceptions to a with statement (a coroutine FRAME they leave turns
+        # StopIteration into RuntimeError - on both sides alike)
+        raise StopIteration(("stop", i))
+    if behaviour == "raise-stop-async":
+        raise StopAsyncIteration(("stop", i))
     if behaviour == "raise-chained":
         # a new exception that already carries a context chain of its own
         try:
@@ -165,6 +176,18 @@ def entry_objects(i, kind, behaviour, log, block_ref):
                 return await self.fn(et, ev, tb)
             return self.fn(et, ev, tb)
 
+    class SyncWrapExit:
+        """a plain exit callable in the place of a nested (synchronous) with statement"""
+
+        def __init__(self, fn):
+            self.fn = fn
+
+        def __enter__(self):
+            return None
+
+        def __exit__(self, et, ev, tb):
+            return self.fn(et, ev, tb)
+
     class WrapCallback:
         def __init__(self, fn, is_async):
             self.fn, self.is_async = fn, is_async
@@ -191,11 +214,11 @@ def entry_objects(i, kind, behaviour, log, block_ref):
         return ("push", cm), ("async", WrapExit(cm.__aexit__, True))
     if kind == "push-scm":
         cm = SCM()
-        return ("push", cm), ("async", WrapExit(cm.__exit__, False))
+        return ("push", cm), ("sync-quiet", SyncWrapExit(cm.__exit__))
     if kind == "push-async":
         return ("push", aexit), ("async", WrapExit(aexit, True))
     if kind == "push-sync":
-        return ("push", sexit), ("async", WrapExit(sexit, False))
+        return ("push", sexit), ("sync-quiet", SyncWrapExit(sexit))
     if kind == "callback-async":
         return ("callback", acallback), ("async", WrapCallback(acallback, True))
     return ("callback", scallback), ("async", WrapCallback(scallback, False))
@@ -229,30 +252,42 @@ async def run_stack(case, log):
     return ("ok",)
 
 
+_NESTED = {}
+
+
+def nested_function(hows):
+    """``async def nested(cms, log, block)``: genuinely nested with statements in ONE coroutine frame"""
+    fn = _NESTED.get(hows)
+    if fn is None:
+        lines = ["async def nested(cms, log, block):"]
+        indent = "    "
+        for i, how in enumerate(hows):
+            lines.append(f"{indent}{'async ' if how == 'async' else ''}with cms[{i}] as value{i}:")  # sync | sync-quiet | async
+            indent += "    "
+            if how == "sync":
+                lines.append(f"{indent}log.append(('entered', value{i}))")
+            else:
+                lines.append(f"{indent}if value{i} is not None:")
+                lines.append(f"{indent}    log.append(('entered', value{i}))")
+        lines.append(f"{indent}block()")
+        scope = {}
+        exec("\n".join(lines), scope)  # noqa: S102 - source generated from a tuple of 'sync'/'async'
+        fn = _NESTED[hows] = scope["nested"]
+    return fn
+
+
 async def run_nested(case, log):
     block_ref = [None]
     refs = [entry_objects(i, k, b, log, block_ref)[1] for i, (k, b) in enumerate(case["entries"])]
 
-    async def level(i):
-        if i == len(refs):
-            log.append(("block",))
-            if case["block"] == "raises":
-                block_ref[0] = BLOCK_REF[0] = Block("block")
-                raise block_ref[0]
-            return
-        how, cm = refs[i]
-        if how == "sync":
-            with cm as value:
-                log.append(("entered", value))
-                await level(i + 1)
-        else:
-            async with cm as value:
-                if value is not None:
-                    log.append(("entered", value))
-                await level(i + 1)
+    def block():
+        log.append(("block",))
+        if case["block"] == "raises":
+            block_ref[0] = BLOCK_REF[0] = Block("block")
+            raise block_ref[0]
 
     try:
-        await level(0)
+        await nested_function(tuple(how for how, _ in refs))([cm for _, cm in refs], log, block)
     except BaseException as exc:  # noqa: B902
         return ("raise", role(exc, block_ref[0]))
     finally:
@@ -320,6 +355,7 @@ def histories(draw, tier):
         st.tuples(st.just("register"), st.sampled_from(KINDS), st.sampled_from(["falsy", "falsy", "truthy", "raise", "enter-fails", "raise-base"])),
         st.tuples(st.just("register"), st.sampled_from(KINDS), st.sampled_from(["falsy", "falsy", "truthy", "raise", "enter-fails", "raise-base"])),
         st.tuples(st.just("register-registering"), st.sampled_from(["push-async", "push-sync", "callback-sync"])),
+        st.tuples(st.just("register-popping"), st.sampled_from(["push-async", "push-sync", "callback-sync"])),
         st.tuples(st.just("aclose")),
         st.tuples(st.just("pop_all"), st.booleans()),
         st.tuples(st.just("leave"), st.booleans()),
@@ -387,12 +423,15 @@ def check_history(case):
                     "callback-async": acb, "callback-sync": scb}[kind]
 
         running_on = [None]
+        unwind_start = [0]
+        moved_away = []
 
         async def unwind(idx, with_exc):
             unwinds[0] += 1
             running_on[0] = idx
             expected = sorted(e for e, o in owner.items() if o == idx)
-            before = len(ran)
+            before = unwind_start[0] = len(ran)
+            del moved_away[:]
             late_before = len(registered_late)
             try:
                 if with_exc:
@@ -410,7 +449,8 @@ def check_history(case):
                 running_on[0] = None
             ran_now = sorted(e for e, _ in ran[before:])
             # exits registered on THIS stack while it was unwinding run in the same unwind
-            expected = sorted(expected + [e for e in registered_late[late_before:] if owner.get(e) == idx])
+            expected = sorted([e for e in expected if e not in moved_away] +
+                              [e for e in registered_late[late_before:] if owner.get(e) == idx])
             if ran_now != expected:
                 problems.append(("unwind-ran-wrong-exits", f"stack {idx}: ran {ran_now} expected {expected}"))
             for e in expected:
@@ -469,6 +509,32 @@ def check_history(case):
                 else:
                     stack.callback(registering)
                 owner[eid] = cur
+            elif name == "register-popping":
+                # an exit that, while it runs, takes everything still pending on its stack away with pop_all():
+                # those exits now belong to the new stack and must not run in the unwind that is under way
+                eid = next_id
+                next_id += 1
+                stack = stacks[cur]
+
+                def popping(*exc, eid=eid, stack=stack, home=cur):
+                    ran.append((eid, running_on[0]))
+                    done_now = {e for e, _ in ran[unwind_start[0]:]} if running_on[0] is not None else set()
+                    stacks.append(stack.pop_all())
+                    for e, o in list(owner.items()):
+                        if o == home and e not in done_now:
+                            owner[e] = len(stacks) - 1
+                            moved_away.append(e)
+                    return False
+
+                if op[1] == "push-async":
+                    async def apopping(*exc, inner=popping):
+                        return inner(*exc)
+                    stack.push(apopping)
+                elif op[1] == "push-sync":
+                    stack.push(popping)
+                else:
+                    stack.callback(popping)
+                owner[eid] = cur
             elif name == "aclose":
                 await unwind(cur, False)
             elif name == "leave":
@@ -484,8 +550,10 @@ def check_history(case):
             elif name == "switch":
                 cur = op[1] % len(stacks)
         # finally every stack is closed (twice: a completed unwind must not run anything again)
-        for _round in range(3):  # an exit may register a late-comer on a stack that was closed already
-            for idx in range(len(stacks)):
+        for _round in range(4):  # an exit may register a late-comer on a stack that was closed already
+            for idx in range(len(stacks) + 8):
+                if idx >= len(stacks):
+                    break  # (popping exits append new stacks while the loop runs)
                 if problems:
                     break
                 await unwind(idx, False)
